@@ -215,12 +215,15 @@ func init() { register("C05", checkC05); register("C31", checkC31) }
 func checkC05(p *Prog, r *Result, tier string) {
 	r.Technique = "conversion rule N1 over resource/plugins/cpumem (type-checked AST), argument/field provenance rules on GetCPUPlans and doAllocByCPU"
 	r.Explanation = "N1 every conversion of a non-constant float to an integer in the cpumem plugin either rounds to nearest (math.Round) or carries no product/quotient: the request->pieces conversion therefore rounds to the nearest piece; " +
+		"DIST a full-core plan takes each of its cores once: in the loop that pops the cores of one plan from the heap nothing is pushed back onto that heap (a core with pieces left is pushed back only after the plan is complete), and every popped core is written into the plan with the full share; " +
 		"SRC1 every planner call in GetCPUPlans receives the CPURequest field of the same request object the caller passed; SRC2 in doAllocByCPU the recorded WorkloadResource takes CPURequest from that request object and CPUMap/NUMANode from the plan of the same loop iteration, and the engine parameters take the same plan's CPUMap: the recorded amount and the pieces handed out come from one request."
 	r.NotCovered = "that the full/fragment split hands out exactly those pieces on every node state (numeric, not decided); requests not expressible in the share base's precision"
 	r.Assumptions = []string{"IEEE-754 double arithmetic; math.Round rounds half away from zero", "A1 no reflection/unsafe"}
 	r.min("N1", 1)
 	r.min("SRC1", 2)
 	r.min("SRC2", 3)
+	r.min("DIST", 1)
+	checkDistinctCoresPerPlan(p, r)
 	checkN1(p, r, []string{"resource/plugins/cpumem"}, map[string]string{"resource/plugins/cpumem/schedule.(*host).getCPUPlans": "CPU request -> pieces"})
 
 	// SRC1: GetCPUPlans -> doGetCPUPlans(.., req.CPURequest, ..)
@@ -655,4 +658,84 @@ func checkC31UpdateArgs(p *Prog, r *Result, M *FuncNode) {
 	}
 	// memory normalisation exists: `if memory == 0 { memory = maxMemory }`
 	_ = calls
+}
+
+// DIST: within the innermost loop that pops the cores of ONE plan from a heap, no push onto the same heap: on an oversold
+// core (pieces > share base) the popped core would be the maximum again, be popped twice and the plan would end up with
+// fewer than `full` cores.
+func checkDistinctCoresPerPlan(p *Prog, r *Result) {
+	isHeap := func(name string) func(*types.Func) bool {
+		return func(f *types.Func) bool { return fullObjName(f) == "container/heap."+name }
+	}
+	n := 0
+	for _, fn := range p.sortedFuncs("resource/plugins/cpumem/schedule") {
+		pops := fn.calls(isHeap("Pop"))
+		if len(pops) == 0 {
+			continue
+		}
+		for _, pc := range pops {
+			// innermost loop containing the pop
+			var inner ast.Stmt
+			var body *ast.BlockStmt
+			fn.inspectBody(func(x ast.Node) bool {
+				var b *ast.BlockStmt
+				switch l := x.(type) {
+				case *ast.ForStmt:
+					b = l.Body
+				case *ast.RangeStmt:
+					b = l.Body
+				}
+				if b != nil && b.Pos() <= pc.Pos() && pc.End() <= b.End() {
+					inner, body = x.(ast.Stmt), b
+				}
+				return true
+			})
+			if inner == nil {
+				continue
+			}
+			n++
+			key := fmt.Sprintf("%s / cores popped for one plan are not pushed back while the plan is being filled (#%d)", fn.Name, n)
+			h := fn.objOf(pc.Args[0])
+			why := ""
+			inspectNoLit(body, func(x ast.Node) bool {
+				if c, ok := x.(*ast.CallExpr); ok {
+					if f := fn.Callee(c); f != nil && isHeap("Push")(f) && len(c.Args) == 2 && fn.objOf(c.Args[0]) == h {
+						why = "heap.Push onto the same heap at " + p.pos(c) + " inside the loop that pops the cores of one plan: a core that still has more pieces than the others is popped again for the same plan, its map entry is overwritten, and the instance gets fewer whole cores than requested while its recorded CPU request says otherwise"
+					}
+				}
+				return true
+			})
+			// the popped core is entered into the plan with the share base
+			var core types.Object
+			inspectNoLit(body, func(x ast.Node) bool {
+				if as, ok := x.(*ast.AssignStmt); ok && len(as.Rhs) == 1 {
+					e := unparen(as.Rhs[0])
+					if ta, ok := e.(*ast.TypeAssertExpr); ok {
+						e = unparen(ta.X)
+					}
+					if e == ast.Expr(pc) {
+						core = fn.objOf(as.Lhs[0])
+					}
+				}
+				return true
+			})
+			entered := false
+			inspectNoLit(body, func(x ast.Node) bool {
+				if as, ok := x.(*ast.AssignStmt); ok && len(as.Lhs) == 1 {
+					if base, idx := indexBaseObj(fn, as.Lhs[0]); base != nil && core != nil {
+						if sel, ok := unparen(idx).(*ast.SelectorExpr); ok && fn.objOf(sel.X) == core && sel.Sel.Name == "ID" {
+							if rs, ok := unparen(as.Rhs[0]).(*ast.SelectorExpr); ok && rs.Sel.Name == "shareBase" {
+								entered = true
+							}
+						}
+					}
+				}
+				return true
+			})
+			if why == "" && !entered {
+				why = "the popped core is not entered into the plan with the full share (plan[core.ID] = shareBase)"
+			}
+			r.check2(why, "DIST", key, p.pos(inner), "pop, plan[core.ID] = shareBase, deferred push after the plan is complete")
+		}
+	}
 }
